@@ -522,7 +522,7 @@ func (c *Ctx) remFactsAt(fn *ssa.Function, blk *ssa.BasicBlock, depth int) []rem
 		}
 	}
 	for _, ce := range conds {
-		call := e.observation(fn, ce)
+		call, em := e.observe(fn, ce)
 		if call == nil {
 			continue
 		}
@@ -530,7 +530,7 @@ func (c *Ctx) remFactsAt(fn *ssa.Function, blk *ssa.BasicBlock, depth int) []rem
 		if callee == nil || !c.P.InLib(callee) {
 			continue
 		}
-		acc := acceptingReturns(callee)
+		acc := acceptingReturnsMode(callee, em)
 		var common []remFact
 		for k, r := range acc {
 			fs := c.remFactsAt(callee, r.Block(), depth+1)
@@ -939,7 +939,7 @@ func (c *Ctx) factsAt(fn *ssa.Function, blk *ssa.BasicBlock) []Affine {
 	out := affineFacts(c.guardFacts(fn, blk))
 	e := c.accept()
 	for _, ce := range ir.DominatingConds(fn, blk) {
-		call := e.observation(fn, ce)
+		call, em := e.observe(fn, ce)
 		if call == nil {
 			continue
 		}
@@ -947,16 +947,16 @@ func (c *Ctx) factsAt(fn *ssa.Function, blk *ssa.BasicBlock) []Affine {
 		if callee == nil || !c.P.InLib(callee) {
 			continue
 		}
-		out = append(out, c.calleeFacts(callee, ir.CallArgs(call), 0)...)
+		out = append(out, c.calleeFactsMode(callee, ir.CallArgs(call), 0, em)...)
 	}
 	if parent := fn.Parent(); parent != nil {
 		for _, f := range withAnon(topFn(fn)) {
 			instrsOf(f, func(i ssa.Instruction) {
 				if mc, ok := i.(*ssa.MakeClosure); ok && mc.Fn == fn && f != fn {
 					for _, ce := range ir.DominatingConds(f, mc.Block()) {
-						if call := e.observation(f, ce); call != nil {
+						if call, em := e.observe(f, ce); call != nil {
 							if callee := ir.Callee(call); callee != nil && c.P.InLib(callee) {
-								out = append(out, c.calleeFacts(callee, ir.CallArgs(call), 0)...)
+								out = append(out, c.calleeFactsMode(callee, ir.CallArgs(call), 0, em)...)
 							}
 						}
 					}
@@ -969,10 +969,14 @@ func (c *Ctx) factsAt(fn *ssa.Function, blk *ssa.BasicBlock) []Affine {
 
 // calleeFacts: facts common to all accepting returns of callee, in the caller's symbols.
 func (c *Ctx) calleeFacts(callee *ssa.Function, args []ssa.Value, depth int) []Affine {
+	return c.calleeFactsMode(callee, args, depth, false)
+}
+
+func (c *Ctx) calleeFactsMode(callee *ssa.Function, args []ssa.Value, depth int, errMode bool) []Affine {
 	if depth > 3 {
 		return nil
 	}
-	acc := acceptingReturns(callee)
+	acc := acceptingReturnsMode(callee, errMode)
 	if len(acc) == 0 {
 		return nil
 	}
